@@ -117,8 +117,13 @@ def empty(
     exit_x: int
 
     if random_exit:
-        exit_y = rng.integers(1, shape.height - 2, endpoint=True)
-        exit_x = rng.integers(1, shape.width - 2, endpoint=True)
+        # the exit must not land under an agent which is not sampled afterwards
+        exit_positions = [
+            position
+            for position in grid.area.positions('inside')
+            if random_agent or position != Position(1, 1)
+        ]
+        exit_y, exit_x = choice(rng, exit_positions).yx
     else:
         exit_y = shape.height - 2
         exit_x = shape.width - 2
